@@ -3,9 +3,10 @@
    Mem/BackingSpec.v, proofs: Mem/BackingProofs.v.  P is the permission payload (any type).
 
    wf 0 s        : representation invariant (keys increasing, sections non-empty, consecutive sections
-                   do not overlap, every exclusive end below 2^64)
+                   do not overlap, every exclusive end at most 2^64)
    abs s         : the partial map address -> (byte, permissions) a section list denotes
-   region_ok a d : the written region does not wrap the address space (0 <= a, a + |d| < 2^64)
+   region_ok a d : the written region does not wrap the address space (0 <= a, a + |d| <= 2^64;
+                   the last byte of the address space may be written)
    run_writes    : a sequence of set_memory calls; run_ops: set_memory / set32 histories
    write_all     : last-writer-wins map of a sequence of region writes (specification) *)
 From Coq Require Import ZArith List.
@@ -24,7 +25,7 @@ Print Assumptions sections_disjoint.
 (* [U] one region write of any overlap shape (left, right, inside, covering, disjoint, adjacent, empty):
    never panics, keeps the invariant, and denotes `overwrite` *)
 Theorem abs_set_memory_step : forall (P : Type) (s : sections P) (a : Z) (d : list Z) (p : P),
-  wf 0 s -> 0 <= a -> a + len d < U64 ->
+  wf 0 s -> 0 <= a -> a + len d <= U64 ->
   exists s', set_memory s a d p = Ok s' /\ wf 0 s' /\ forall x, abs s' x = overwrite (abs s) a d p x.
 Proof. exact @set_memory_spec. Qed.
 Print Assumptions abs_set_memory_step.
@@ -118,4 +119,13 @@ Example split_example :
   run_writes [] [(16, [1; 2; 3; 4], 5); (18, [9], 7)] = Ok [(16, ([1; 2], 5)); (18, ([9], 7)); (19, ([4], 5))]
   /\ get true [(16, ([1; 2], 5)); (18, ([9], 7)); (19, ([4], 5))] 17 24 = Ok (Some (mkc 24 133380))
   /\ get false [(16, ([1; 2], 5)); (18, ([9], 7)); (19, ([4], 5))] 17 32 = Ok None.
+Proof. vm_compute. repeat split; reflexivity. Qed.
+
+(* a region may end exactly at 2^64: the last byte of the address space is readable, a wide read that would
+   leave the address space is absent, not a panic *)
+Example top_example :
+  run_writes [] [(18446744073709551612, [1; 2; 3; 4], 5)] = Ok [(18446744073709551612, ([1; 2; 3; 4], 5))]
+  /\ get8 [(18446744073709551612, ([1; 2; 3; 4], 5))] 18446744073709551615 = Ok (Some 4)
+  /\ get false [(18446744073709551612, ([1; 2; 3; 4], 5))] 18446744073709551614 32 = Ok None
+  /\ get32 true [(18446744073709551612, ([1; 2; 3; 4], 5))] 18446744073709551612 = Ok (Some 16909060).
 Proof. vm_compute. repeat split; reflexivity. Qed.
